@@ -16,6 +16,68 @@ from interp import Agg, Enum, Int, Interp, Opaque, Ref, SymArr, UNIT, unwrap_ref
 from rules import c13
 
 
+class Table:
+    """provenance of a vector produced by count(entry parser, n).parse(slice): the n consecutive
+    records of the file that start at the slice"""
+
+    def __init__(self, entry, n, src):
+        self.entry = entry    # name of the element parser
+        self.n = n            # bits of the count (or None)
+        self.src = src        # slice descriptor of the input (base, start, end, inclusive) or None
+
+    def __repr__(self):
+        return "Table(%s)" % self.entry.split("::")[-1]
+
+
+LOSSY_ADAPTORS = ("skip", "take", "filter", "step_by", "skip_while", "take_while", "filter_map", "nth", "last", "chain", "zip", "flat_map", "dedup", "truncate", "retain", "pop", "remove", "drain", "split_off", "clear")
+
+
+def chain_of(prov):
+    """flatten a provenance term: (list of adaptor names from the outside in, root)"""
+    ops = []
+    while isinstance(prov, tuple) and len(prov) >= 2 and isinstance(prov[0], str) and prov[0] in ("map", "collect", "iter", "rev") or \
+            (isinstance(prov, tuple) and len(prov) >= 2 and isinstance(prov[0], str) and prov[0].startswith("lossy:")):
+        ops.append(prov[0])
+        prov = prov[1]
+    if isinstance(prov, tuple) and len(prov) == 4 and prov[1] is None and prov[2] is None:
+        prov = prov[0]    # the whole slice of a vector
+    return ops, prov
+
+
+def check_table(res, prov, entry, exp_n, exp_off, care, key, what, differs, witness):
+    """the collection an analysed loop draws from must be the complete table of the file:
+    count(<entry>, n).parse(file[off..]) seen through element-preserving adaptors only"""
+    ops, root = chain_of(prov)
+    lossy = [o for o in ops if o.startswith("lossy:")]
+    res.ob(not lossy)
+    if lossy:
+        res.finding("%s|incomplete-iteration" % key, "%s: the loop does not visit every entry (%s applied to the table)" % (what, ", ".join(o[6:] + "()" for o in lossy)), witness(care))
+        return False
+    if not isinstance(root, Table):
+        res.errors.append("%s: cannot establish which collection the loop iterates (provenance %r)" % (what, prov))
+        return False
+    okk = (root.entry or "").endswith(entry)
+    res.ob(okk)
+    if not okk:
+        res.finding("%s|table-kind" % key, "%s: the loop iterates records parsed by %s, expected %s" % (what, root.entry, entry), witness(care))
+        return False
+    d = differs(root.n, exp_n, care)
+    res.ob(d == 0)
+    if d != 0:
+        res.finding("%s|table-count" % key, "%s: the number of records parsed is not the one the file declares" % what, witness(d))
+    src = root.src
+    okk = src is not None and src[0] == "file" and src[2] is None
+    res.ob(okk)
+    if not okk:
+        res.finding("%s|table-source" % key, "%s: the records are not parsed from the file image at the declared offset (%r)" % (what, src and src[0]), witness(care))
+        return False
+    d2 = differs(src[1], exp_off, care)
+    res.ob(d2 == 0)
+    if d2 != 0:
+        res.finding("%s|table-offset" % key, "%s: the table is not parsed at the file offset the header declares" % what, witness(d2))
+    return d == 0 and d2 == 0
+
+
 def slice_desc(v):
     return v.data if isinstance(v, Opaque) and v.tag == "slice" else None
 
@@ -177,6 +239,53 @@ class Loader:
                 return args[0]    # a Range is its own iterator
             return Opaque("iter", (name, st.count("iter")))
 
+        def m_lossy(ip_, st, fr, t, args):
+            # an adaptor / mutation that may drop, reorder or merge elements: recorded in the provenance
+            name = t["callee"]["path"].split("::")[-1]
+            it = args[0]
+            v = val(st, it)
+            src = v.data[0] if isinstance(v, Opaque) and v.tag in ("iter", "vec") else None
+            if name == "skip" and isinstance(args[1], Int) and bv.to_int(args[1].bits) == 0:
+                return Opaque("iter", (src, st.count("iter")))
+            if isinstance(v, Opaque) and v.tag == "vec" and isinstance(it, Ref):
+                ip_.write_loc(st, it.root, it.path, Opaque("vec", (("lossy:" + name, src), v.data[1])))
+                return typed_unknown(ip_, st, fr, t, args, t["callee"]["path"])
+            return Opaque("iter", (("lossy:" + name, src), st.count("iter")))
+
+        def m_nom_count(ip_, st, fr, t, args):
+            a0 = t["args"][0]
+            entry = a0["v"].get("fn") if a0["k"] == "const" and isinstance(a0.get("v"), dict) else None
+            return Opaque("nomcount", (entry, bits_of(args[1])))
+
+        def m_nom_parse(ip_, st, fr, t, args):
+            p = val(st, args[0])
+            if not (isinstance(p, Opaque) and p.tag == "nomcount" and p.data[0]):
+                return None
+            tab = Table(p.data[0], p.data[1], slice_desc(val(st, args[1])))
+            rt = types[t["dest"]["ty"]]
+            outs = []
+            for v, hook in symgen.alternatives(ip_, st, t["dest"]["ty"], "%s@%d" % (p.data[0].split("::")[-1][:24], st.count("unk"))):
+                if isinstance(v, Enum) and v.variant == models.OK and isinstance(v.fields[0], Agg) and len(v.fields[0].fields) == 2 \
+                        and isinstance(v.fields[0].fields[1], Opaque) and v.fields[0].fields[1].tag == "vec":
+                    vec = v.fields[0].fields[1]
+                    v = Enum(models.OK, [Agg([v.fields[0].fields[0], Opaque("vec", (tab, vec.data[1]))])])
+
+                def mk(s, hook=hook, tab=tab):
+                    if hook:
+                        hook(s)
+                    s.add_eff(("table-parse", tab))
+                outs.append((None, v, mk))
+            return outs
+
+        def m_parse_header(ip_, st, fr, t, args):
+            # the ELF header: most general value of its type (its byte layout is decided by C11's parser-layout rule)
+            outs = symgen.outcomes(ip_, st, t["dest"]["ty"], "ehdr")
+            for o in outs:
+                v = o[1]
+                if isinstance(v, Enum) and v.variant == models.OK and isinstance(v.fields[0], Agg):
+                    self.ehdr = v.fields[0].fields[1]
+            return outs
+
         def m_map(ip_, st, fr, t, args):
             it = args[0]
             return Opaque("iter", (("map", it.data[0] if isinstance(it, Opaque) and it.tag == "iter" else None), st.count("iter")))
@@ -239,6 +348,13 @@ class Loader:
             return None
         M = ip.models
         ip.primitives[self.f.body("elf::read_elf")["key"]] = m_read_elf
+        self.ehdr = None
+        kh = self.f.find("parse_elf_header32")
+        if len(kh) == 1:
+            ip.primitives[kh[0]] = m_parse_header
+        M["nom::multi::count"] = m_nom_count
+        M["nom::Parser::parse"] = m_nom_parse
+        ip.pattern_models.append((lambda p, f: (p.startswith("std::iter::Iterator::") or p.startswith("std::vec::Vec::<T, A>::")) and p.split("::")[-1] in LOSSY_ADAPTORS, m_lossy))
         M["<std::vec::Vec<T, A> as std::ops::Deref>::deref"] = m_vec_deref
         M["<std::vec::Vec<T, A> as std::ops::Index<I>>::index"] = m_index
         M["core::slice::index::<impl std::ops::IndexMut<I> for [T]>::index_mut"] = m_index
@@ -269,7 +385,7 @@ class Loader:
         ip.typed_unknown = typed_unknown
         # models that decline (return None) fall back to the typed unknown
         for name, fn in list(M.items()):
-            if fn in (m_index, m_len, m_string_eq, m_unwrap_or_else):
+            if fn in (m_index, m_len, m_string_eq, m_unwrap_or_else, m_nom_parse):
                 def wrap(ip_, st, fr, t, args, fn=fn, name=name):
                     r = fn(ip_, st, fr, t, args)
                     if r is None:
